@@ -10,6 +10,7 @@ CONSTANTS
   CrashBudget = 0
   AdvBudget = 0
   Debris <- NoDebris
+  PreRO <- NoPreRO
   FrontKind = "sharded"
   KeyShards <- NoKeyShards
 POSTCONDITION Accepted
